@@ -294,5 +294,49 @@ pub fn check_eval(t: &mut Tape) -> (Vec<Violation>, Value) {
         }
         Err(e) => viol.push(v("tag-expr-parse", format!("`{text}` does not parse: {e}"))),
     }
+    // through the command line proper: `--tags` / `-t` and `--name` / `-n` / `--scenario-name` as argv
+    {
+        use clap::Parser as _;
+        let spell = |t: &mut Tape, long: &str, short: &str, val: &str| -> Vec<String> {
+            match t.pick(3) {
+                0 => vec![format!("--{long}={val}")],
+                1 => vec![format!("-{short}"), val.to_string()],
+                _ => vec![format!("--{long}"), val.to_string()],
+            }
+        };
+        let mut argv = vec!["cucumber".to_string()];
+        let by_name = t.chance(1, 3);
+        let re_text = ["^F\\d+\\.S1$", "S0", "R\\d", "^$", "a|b"][t.pick(5)];
+        if by_name {
+            let long = if t.chance(1, 2) { "name" } else { "scenario-name" };
+            argv.extend(spell(t, long, "n", re_text));
+        } else {
+            argv.extend(spell(t, "tags", "t", &text));
+        }
+        match cli::Opts::<cli::Empty, cli::Empty, cli::Empty>::try_parse_from(&argv) {
+            Err(e) => viol.push(v("cli/rejected", format!("{argv:?} is rejected: {}", e.to_string().lines().next().unwrap_or("")))),
+            Ok(o) => {
+                if by_name {
+                    if o.re_filter.as_ref().map(regex::Regex::as_str) != Some(re_text) || o.tags_filter.is_some() {
+                        viol.push(v("cli/name", format!("{argv:?}: parsed name filter {:?}, tags filter given: {}", o.re_filter.as_ref().map(regex::Regex::as_str), o.tags_filter.is_some())));
+                    }
+                } else {
+                    match &o.tags_filter {
+                        Some(parsed) if o.re_filter.is_none() => {
+                            if parsed.eval(tags.iter()) != exp {
+                                viol.push(v("cli/tags", format!("{argv:?} over {tags:?}: parsed filter evaluates to {}, boolean formula = {exp}", !exp)));
+                            }
+                        }
+                        _ => viol.push(v("cli/tags", format!("{argv:?}: tags filter missing or a name filter appeared"))),
+                    }
+                }
+            }
+        }
+        // both at once are documented as conflicting
+        let both = vec!["cucumber".to_string(), "--name".into(), "x".into(), "--tags".into(), "@a".into()];
+        if t.rare(1, 50) && cli::Opts::<cli::Empty, cli::Empty, cli::Empty>::try_parse_from(&both).is_ok() {
+            viol.push(v("cli/conflict", "--name and --tags together are accepted although declared conflicting".into()));
+        }
+    }
     (viol, json!({"expr": text, "tags": tags, "value": exp}))
 }
